@@ -879,6 +879,11 @@ impl<'a> LiveEvents<'a> {
                     // Found the start of the next document
                     self.reset_document_state();
                     self.produced_any_in_doc = false;
+                    // The skipped events bypassed the budget: start the next document with a
+                    // clean per-document budget state, as if the boundary had been pumped.
+                    if let Some(budget) = self.budget.as_mut() {
+                        budget.restart_document(&raw);
+                    }
                     return true;
                 }
                 Event::DocumentEnd => {
